@@ -27,6 +27,29 @@ def run(rep, tier):
     njobs = 96 if tier == "quick" else 1200
     for res in core.pool().imap_unordered(L.inject_work, [(rng.randrange(1 << 40), 25) for _ in range(njobs)], chunksize=1):
         fold(rep, res, "injected")
+    # an error inside a `${...}` slot: whatever the exact convention, replacing text before the slot by text with the
+    # same number of characters (but other byte lengths) must not move the reported column
+    from .. import judge
+    groups = []
+    for pre in (["ab", "éb", "✓😀", "ßé"], ["", ""], ["xyz =", "xÿ✓ =", "😀😀😀 ="]):
+        for slot in ("nope", "1 + null", "f(", "[1][5]"):
+            groups.append([('q := 1; print(1)\nprint($"%s${%s} tail")\n' % (p, slot)) for p in pre])
+    for grp in groups:
+        obs = core.run_many([{"src": t} for t in grp])
+        rep.evaluations += len(grp)
+        rep.process_runs += len(grp)
+        rep.tally("injected", "slot_error_column", len(grp))
+        cols = []
+        for t, o in zip(grp, obs):
+            d = judge.Diag(o.err)
+            if o.crashed or o.code != 103 or not d.ok:
+                rep.violation("C18/slot-error-shape", "slot error is not a clean located diagnostic: %r" % o.err[:160], {"src": t, "observed": o.brief()})
+                cols = None
+                break
+            cols.append(d.pos)
+        if cols and len(set(cols)) != 1:
+            rep.violation("C18/slot-column-counts-bytes", "the column of an error inside an interpolation slot changes when preceding text is replaced by text with the same number of characters: %s" % cols,
+                          {"src": grp[1], "oracle": "character-count invariance", "variants": grp})
     pinned = {k for k in rep.cov.get("layout_pairs", {}) if k.startswith("pinned:")}
     rep.rule = ("generated programs under random layouts of everything preceding each token (blank lines, tabs, CR LF, comments with multi-byte text, multi-line and hex-escaped string literals, continuation breaks): "
                 "(1) every token start reported by the lexer hook and every node position in the AST dump equals where the printer wrote the token; (2) runtime diagnostics of the pinned categories "
